@@ -26,6 +26,73 @@ def _match_arms(body, what):
     return arms
 
 
+def _squish(src):
+    """Source text without comments and without any whitespace (rustfmt-insensitive)."""
+    src = re.sub(r"/\*.*?\*/", "", src, flags=re.S)
+    src = re.sub(r"//[^\n]*", "", src)
+    return re.sub(r"\s+", "", src)
+
+
+def _braced(text, i):
+    """text[i] == '{': the text between it and its matching '}', or None."""
+    depth = 0
+    for j in range(i, len(text)):
+        if text[j] == "{":
+            depth += 1
+        elif text[j] == "}":
+            depth -= 1
+            if depth == 0:
+                return text[i + 1 : j]
+    return None
+
+
+_FILTER = (r"\.filter\(\|e2\|\{e1!=\*e2&&\{lete2_nodes=element_to_nodes\(\*e2\);"
+           r"letnodes_in_common=e1_nodes\.iter\(\)\.filter\(\|e1_node\|e2_nodes\.contains\(e1_node\)\)\.count\(\);"
+           r"dimension(?:<=|<)nodes_in_common\}\}\)")
+_ROW = re.compile(
+    r"letmutneighbors(?::Vec<usize>)?="
+    # candidates: every element listed under every node of e1, no truncation
+    r"e1_nodes\.iter\(\)\.flat_map\(\|node\|&node_to_elements\[\*node\]\)\.(?:cloned|copied)\(\)"
+    r"(?P<filter>(?:" + _FILTER + r")?)"
+    r"\.collect(?:::<Vec<(?:usize|_)>>)?\(\);"
+    r"(?P<post>(?:neighbors\.(?:sort_unstable|sort|dedup)\(\);)*)"
+    r"letptr=&indice_locks\[e1\]as\*constVec<usize>as\*mutVec<usize>;"
+    r"unsafe\{ptr\.write\(neighbors\);?\};?")
+_INDEX = re.compile(
+    r"letmutnode_to_elements=vec!\[Vec::new\(\);mesh\.node_count\(\)\];"
+    r"for\(e,nodes\)inelements\(\)\{fornodeinnodes\{"
+    r"letnode_elements=&mutnode_to_elements\[\*node\];"
+    r"(?:ifnode_elements\.is_empty\(\)\{node_elements\.reserve\([\w:]+\);\})?"
+    r"ifletErr\(idx\)=node_elements\.binary_search\(&e\)\{node_elements\.insert\(idx,e\);\}"
+    r"\}\}")
+
+
+def row_pipeline(dual_body):
+    """The per-element closure of `dual`, fingerprinted: candidates = flat_map over
+    `node_to_elements[*node]` for the nodes of e1 (nothing bounded: no buffer, no zip, no take),
+    then the steps filter / sort / dedup in the order they are written.  Returns the list of steps;
+    anything else in the closure is unrecognised -> Fail."""
+    sq = _squish(dual_body)
+    if not _INDEX.search(sq):
+        raise Fail("dual: the loop building node_to_elements (binary_search + insert per node of each element) was not recognised")
+    k = sq.find(".for_each(|(e1_nodes,e1)|{")
+    if k < 0:
+        raise Fail("dual: the per-element closure `.for_each(|(e1_nodes, e1)| {..})` was not found")
+    body = _braced(sq, sq.index("{", k))
+    if body is None:
+        raise Fail("dual: unbalanced braces in the per-element closure")
+    m = _ROW.fullmatch(body)
+    if not m:
+        raise Fail("dual: the neighbour pipeline of the per-element closure was not recognised (expected: "
+                   "e1_nodes.iter().flat_map(|node| &node_to_elements[*node]).cloned()[.filter(e1 != e2 && shared-node test)]"
+                   ".collect(); then neighbors.sort_unstable()/dedup() statements; then the write into indice_locks[e1]) -- "
+                   "found: %s" % body[:160])
+    steps = ["RFilter"] if m.group("filter") else []
+    for st in re.findall(r"neighbors\.(\w+)\(\);", m.group("post")):
+        steps.append("RDedup" if st == "dedup" else "RSort")
+    return steps
+
+
 def gen_mesh_tables():
     rel = "tools/mesh-io/src/lib.rs"
     src = read(rel)
@@ -91,6 +158,7 @@ def gen_mesh_tables():
     if not mcmp or mcmp.group(1) != "dimension":
         raise Fail("dual: the comparison `dimension <= nodes_in_common` was not recognised")
     cmp_le = mcmp.group(2) == "<="
+    steps = row_pipeline(dual)
 
     out = HEADER.format(src=rel + ", tools/mesh-io/src/medit/{mod,serializer}.rs, tools/src/lib.rs")
     out += "Inductive etype : Set := %s.\n" % " | ".join(variants)
@@ -113,6 +181,10 @@ def gen_mesh_tables():
     out += "Definition barycentres_drops_edges : bool := %s.\n" % ("true" if bary_edge else "false")
     out += "Definition used_count_drops_edges : bool := %s.\n" % ("true" if used_edge else "false")
     out += "Definition dual_threshold_is_le : bool := %s.\n" % ("true" if cmp_le else "false")
+    out += "(* the per-element closure of `dual`: candidates = flat_map of node_to_elements over the nodes of e1\n"
+    out += "   (recognised, nothing bounded), then these steps in this order *)\n"
+    out += "Inductive row_step : Set := RFilter | RSort | RDedup.\n"
+    out += "Definition dual_row_steps : list row_step := (%s)%%list.\n" % " :: ".join(steps + ["nil"])
     return out
 
 
@@ -126,7 +198,7 @@ PROP = dict(
     cases=dict(quick=1500, thorough=12000),
     level="proof",
     release_too=True,
-    rule="meshes drawn from 12 families (random elements over a small node pool, conforming 2-D quad/triangle grids, non-conforming 2-D grids with hanging nodes, conforming 3-D "
+    rule="meshes drawn from 13 families (high-valence meshes -- closed/open fans of 130..300 triangles around a hub node, wheels of 130..200 tetrahedra around an axis edge, hub first/last/anywhere in the node lists, several hubs, mixed with ordinary and lower-dimensional elements: about 1 case in 100 --, random elements over a small node pool, conforming 2-D quad/triangle grids, non-conforming 2-D grids with hanging nodes, conforming 3-D "
          "hexahedron/tetrahedron grids with boundary faces and edges, pairs built to share exactly dim-1/dim/dim+1/all nodes, repeated "
          "node sets, highest dimension 0/1 or no block, an element with a repeated node, a node id out of range, an empty "
          "highest-dimensional block, random mix of all seven element types); blocks in random order, one type possibly split over "
@@ -138,6 +210,8 @@ PROP = dict(
                  4: "repeated node inside an element (outside)"},
     trusted_base=[
         "axioms: none (every theorem of Properties/C18.v is closed under the global context)",
+        "for meshes of the contract with more than 64 highest-dimensional elements the run glue takes the certified checker's verdict as the "
+        "correspondence instead of re-running the model (C18_checker_implies_model + C18_model_passes_checker: the two are equivalent there)",
         "modelled, not verified: the unsafe raw-pointer writes `indice_locks[e1] = neighbors` and `copy_nonoverlapping` into "
         "`indices[start..end]` are functional updates at pairwise-distinct indices / consecutive ranges (memory safety is outside this technique)",
     ],
@@ -159,10 +233,10 @@ MANIFEST = dict(
          "candidate/shared-count filter, sort+dedup, per-row writes in any order, CSR assembly, CsMat::new's check), barycentres (count) "
          "and used_element_count: the rows are exactly the brute-force definition, symmetric, irreflexive, strictly sorted, one vertex per "
          "highest-dimensional element, the three counts agree, no panic (in particular no underflow in element_to_nodes). The element tables "
-         "(dimension, node_count, MEDIT codes) and the filter clauses are re-read from the source on every run; the model is compared with the "
+         "(dimension, node_count, MEDIT codes), the filter clauses and the per-element neighbour pipeline (candidates = flat_map of node_to_elements over the nodes of e1 with nothing bounded, then filter/sort/dedup in the written order; the node-index loop) are re-read / fingerprinted from the source on every run, anything unrecognised breaks the obligations; the model is compared with the "
          "implementation (CSR triple exactly, pools 1..16) and a checker proved equivalent to the definition judges every implementation output.",
     design_ref="DESIGN.md §7 C18",
-    note="Trusted: Coq kernel; model<->code tie = translator (element tables, filter clauses, threshold comparison) + differential runs "
+    note="Trusted: Coq kernel; model<->code tie = translator (element tables, filter clauses, threshold comparison, fingerprint of the neighbour pipeline and of the node-index loop) + differential runs "
          "(1.5k / 12k debug + 6k release-profile meshes); unsafe pointer writes modelled as functional updates. No axioms.",
     technique="Coq proof (invariants over the block scan and the node index) + translator + model/implementation correspondence + certified checker",
 )
